@@ -165,20 +165,33 @@ def work(item):
                     part.states.add(report.fp([first_code, lines1, mode]))
                     part.nontrivial.add(report.fp([first_code, lines1, mode]))
         elif kind == "foreign":
-            # continuation line carrying a different code => StatusCodeError, next reply still decodes
+            # a continuation line carrying a different code => StatusCodeError, wherever it stands (middle line with a
+            # correct terminator, terminator only, both); the next reply must still decode
             for code, other in payload:
                 for body in ("x", "", "-y"):
-                    raw = f"{code}-start\r\n{other} {body}\r\n".encode() + f"{code} end\r\n".encode() if False else \
-                        f"{code}-start\r\n{other}-{body}\r\n{other} tail\r\n226 next\r\n".encode()
-                    for cuts in ([], list(range(1, len(raw)))):
-                        res = decode(w, a, raw, cuts, 2)
-                        part.evaluations += 1
-                        ok = (len(res) >= 1 and res[0][0] == "StatusCodeError")
-                        if not ok:
-                            part.violation({"kind": "foreign-code-not-rejected"}, {"raw": raw.decode(), "got": res},
-                                           replay={"foreign": [code, other, body]})
-                    part.states.add(report.fp([code, other, body]))
-                    part.nontrivial.add(report.fp([code, other, body]))
+                    shapes = {
+                        "middle": f"{code}-start\r\n{other}-{body}\r\n{code} end\r\n",
+                        "middle-of-four": f"{code}-start\r\n{code}-ok\r\n{other}-{body}\r\n{code} end\r\n",
+                        "terminator": f"{code}-start\r\n{code}-{body}\r\n{other} end\r\n",
+                        "both": f"{code}-start\r\n{other}-{body}\r\n{other} tail\r\n",
+                    }
+                    for shape, text in shapes.items():
+                        raw = (text + "226 next\r\n").encode()
+                        for cuts in ([], list(range(1, len(raw)))):
+                            res = decode(w, a, raw, cuts, 2)
+                            part.evaluations += 1
+                            if not (len(res) >= 1 and res[0][0] == "StatusCodeError"):
+                                part.violation({"kind": "foreign-code-not-rejected", "where": shape},
+                                               {"raw": raw.decode(), "got": res}, replay={"foreign": [code, other, body, shape]})
+                            elif shape in ("middle", "middle-of-four") and res[1:] not in ([("226", [" next"])],
+                                                                                         [(code, [" end"]), ]):
+                                # after rejecting at the foreign line the rest of that reply is still on the stream:
+                                # the client reads it as the next reply (its own terminator) - never garbage
+                                if not (len(res) == 2 and res[1][0] in (code, "226")):
+                                    part.violation({"kind": "stream-desynchronised-after-rejection", "where": shape},
+                                                   {"raw": raw.decode(), "got": res}, replay={"foreign": [code, other, body, shape]})
+                        part.states.add(report.fp([code, other, body, shape]))
+                        part.nontrivial.add(report.fp([code, other, body, shape]))
         elif kind == "latin1":
             for line in ["é", "a é b", "ÿ", "\xa0x"]:
                 srv = a.Server(encoding="latin-1")
